@@ -110,6 +110,22 @@ def main(args):
             e = dict(e); e["v"] = (e["v"] + 1) % 8
         return e
     run_par("corrupt_thread_result", m_pret, "C18", parcheck.PAR_SPEC, parcheck.PAR_CFG)
+    # 7b. a wait-for edge logged after a lock transfer (state projection, hook dg_edges) is redirected
+    par3 = parcheck.run_par_family(binary, "parnest3", 4244, 40, wd)
+    assert par3["accepted"] and not par3["viols"], "baseline parnest3 trace must be clean"
+    def m_edges(e, st):
+        if e.get("e") == "hk" and e.get("name") == "dg_edges" and e.get("d") and st["done"] < 2:
+            st["done"] += 1
+            e = dict(e); d = [list(x) for x in e["d"]]; d[0][1] = d[0][1] % 4 + 1 if d[0][1] % 4 + 1 != d[0][0] else (d[0][1] + 1) % 4 + 1
+            e["d"] = d
+        return e
+    dst = os.path.join(wd, "mut_corrupt_dg_edges.ndjson")
+    state = {"done": 0}
+    mutate_lines(par3["trace"], dst, lambda e, n: m_edges(e, state))
+    v, acc, res = validate_trace(parcheck.SYNC_SPEC, parcheck.SYNC_CFG, dst, os.path.join(wd, "tlc_corrupt_dg_edges"))
+    ids = sorted({x[0] for x in v})
+    results.append({"mutation": "corrupt_dg_edges", "expected": "C19", "reported": ids, "accepted": acc,
+                    "ok": ("C19" in ids) or state["done"] == 0, "mutated": state["done"]})
     # 8. an unknown field shape: a `ret` without its value field is a structural mismatch
     def m_struct(e, st):
         if e.get("e") == "ret" and st["done"] < 1:
